@@ -11,6 +11,30 @@ pub struct HistSuite {
     pub salt: u64,
     pub fams: Vec<(Family, usize)>,
     pub thorough_scale: usize,
+    /// fixed cases run on every check: the witnesses of the refutation lemmas of Props/*.v
+    pub witnesses: Vec<(&'static str, String)>,
+}
+
+fn hx(s: &str) -> String {
+    Sx::bytes(s.as_bytes()).to_string()
+}
+
+const OPTS0: &str = "(opts (combine 0) (max_wal_files 1000) (max_wal_size 67108864) (max_part_bytes 8388608) (io_threads 1) (flush_threads 1))";
+
+/// Props/C07.v C07_compaction_loses_nulls_refuted: a = [10, NULL], one flush with factor 0
+fn witness_f1() -> String {
+    format!(
+        "({} (ops (ingest (({} 2 (({} ((i 0) (i 1))) ({} ((i 10) n)))))) (flush)))",
+        OPTS0, hx("t1"), hx("id"), hx("a")
+    )
+}
+
+/// Props/C13.v C13_compaction_carries_all_refuted: ingest, flush, restart, ingest (no new column), flush
+fn witness_f3() -> String {
+    format!(
+        "({} (ops (ingest (({} 1 (({} ((i 0))))))) (flush) (restart) (ingest (({} 1 (({} ((i 1))))))) (flush)))",
+        OPTS0, hx("t1"), hx("id"), hx("t1"), hx("id")
+    )
 }
 
 impl Suite for HistSuite {
@@ -18,7 +42,13 @@ impl Suite for HistSuite {
         self.name
     }
     fn generate(&self, seed: u64, tier: &str) -> Vec<Case> {
-        gen_cases(seed, self.salt, &self.fams, if tier == "thorough" { self.thorough_scale } else { 1 })
+        let mut cases: Vec<Case> = self
+            .witnesses
+            .iter()
+            .map(|(class, input)| Case { class: class.to_string(), input: Sx::parse(input).expect("witness") })
+            .collect();
+        cases.extend(gen_cases(seed, self.salt, &self.fams, if tier == "thorough" { self.thorough_scale } else { 1 }));
+        cases
     }
     fn run(&self, input: &Sx) -> Vec<Outcome> {
         run_history(input)
@@ -73,6 +103,7 @@ fn fam(name: &'static str) -> Family {
         hex: false,
         odd_names: false,
         compressible: false,
+        strings: false,
         restarts: true,
         evicts: true,
         bursts: false,
@@ -95,6 +126,7 @@ pub fn all() -> Vec<Box<dyn Suite>> {
                 (Family { factors: &[0], max_ops: 8, ..fam("dense-recompact") }, 6),
             ],
             thorough_scale: 12,
+            witnesses: vec![],
         }),
         // C18: ingest / flush cycles, every factor, tiny WAL limits, sub-partition limits
         Box::new(HistSuite {
@@ -105,6 +137,7 @@ pub fn all() -> Vec<Box<dyn Suite>> {
                 (Family { restarts: false, evicts: false, tiny_wal: true, bursts: true, max_ops: 10, ..fam("cycles-bgflush") }, 16),
             ],
             thorough_scale: 12,
+            witnesses: vec![],
         }),
         // C13: column sets come and go
         Box::new(HistSuite {
@@ -118,6 +151,7 @@ pub fn all() -> Vec<Box<dyn Suite>> {
                 (Family { cols: Cols::VaryAcross, odd_names: true, compressible: true, factors: &[0, 1], restarts: false, max_ops: 6, ..fam("long-compressible-names") }, 2),
             ],
             thorough_scale: 12,
+            witnesses: vec![("vary-across-recompact/witness-F3/restart", witness_f3())],
         }),
         // C07: maintenance steps on NULL-heavy / absent / hex-packed columns
         Box::new(HistSuite {
@@ -128,10 +162,12 @@ pub fn all() -> Vec<Box<dyn Suite>> {
                 (Family { cols: Cols::VaryAcross, factors: &[1, 4, 999], ..fam("absent-columns") }, 10),
                 (Family { cols: Cols::VaryWithin, nulls: true, factors: &[999], ..fam("nulls-no-compaction") }, 8),
                 (Family { cols: Cols::VaryWithin, nulls: true, factors: &[0, 1, 4], max_ops: 8, ..fam("nulls-compaction") }, 6),
-                (Family { hex: true, factors: &[0, 1], restarts: false, max_ops: 6, ..fam("hex-strings") }, 3),
-                (Family { compressible: true, factors: &[0, 1], restarts: false, max_ops: 6, ..fam("compressible-strings") }, 2),
+                (Family { strings: true, factors: &[1, 4, 999], restarts: false, ..fam("strings") }, 5),
+                (Family { strings: true, hex: true, factors: &[0, 1], restarts: false, max_ops: 6, ..fam("hex-strings") }, 3),
+                (Family { strings: true, compressible: true, factors: &[0, 1], restarts: false, max_ops: 6, ..fam("compressible-strings") }, 2),
             ],
             thorough_scale: 12,
+            witnesses: vec![("nulls-compaction/witness-F1", witness_f1()), ("dense/witness-F3/restart", witness_f3())],
         }),
     ]
 }
